@@ -269,8 +269,12 @@ def gen_linsolve_classchange(rng, pattern=None):
     if pattern is not None:     # (consecutive DIFFERENT matrices of one class: what is cached per class must follow the matrix)
         classes = list(pattern)
     shp = (n,) if k is None else (n, k)
+    varyk = rng.random() < 0.4      # the number of load cases changes between the responses of ONE instance
     for c in classes[:4]:
         cplx = c == "csym"
+        if varyk:
+            kk_ = [None, 1, 2, 3][int(rng.integers(0, 4))]
+            shp = (n,) if kk_ is None else (n, kk_)
         A = zoo._rand_matrix(rng, n, c, cplx)
         if sparse:
             mask = rng.random((n, n)) < 0.7
